@@ -206,7 +206,11 @@ class Runner:
                     kw["delay"] = self.beats(dl)
                 tr.update(self.new_pattern(sid), count=count, **kw)
             elif w[0] == "unsched":
-                tl.unschedule(self.live(int(w[1])))
+                tr = self.live(int(w[1]))
+                if int(w[1]) % 2:
+                    tr.stop()              # Track.stop() is the other public way to unschedule
+                else:
+                    tl.unschedule(tr)
             elif w[0] == "clear":
                 tl.clear()
             elif w[0] == "mute":
